@@ -21,25 +21,25 @@ from models import fmt as mfmt
 ID = 'C08'
 PROFILES = ['dev']
 REPLAY_PROFILES = ['dev', 'release']
-TIME_LIMIT = {'quick': 420, 'thorough': 3000}
+TIME_LIMIT = {'quick': 420, 'thorough': 2400}
 BUDGET = 150
 FIRST_BUDGET = 40
 
 def grid(tier, rnd):
     ds = list(range(1, 17)) + [20, 25, 32, 40, 50, 64, 100, 125, 1000, 7 * 11, 97, 101]
     if tier != 'quick':
-        ds += list(range(17, 65)) + [80, 128, 250, 999, 1024, 1415, 3125, 10 ** 6] + [2 ** a * 5 ** b for a in range(0, 10, 2) for b in range(0, 6, 2)] + [17, 19, 23, 29, 31, 37, 41, 43, 47, 53, 59, 61, 67, 71, 73, 79, 83, 89] + [1415123312312333214, 10 ** 12, 3 * 10 ** 9 + 7]
+        ds += list(range(17, 65)) + [80, 128, 250, 400, 625, 999, 1024, 3125, 10 ** 4, 10 ** 6] + [67, 71, 73, 79, 83, 89]
     return sorted(set(ds))
 
 def jobs(tier, seed, report):
     rnd = random.Random(seed)
-    K = 12 if tier == 'quick' else 24
+    K = 12 if tier == 'quick' else 18
     ds = grid(tier, rnd)
     lims = [1, 2, 3, 6] if tier == 'quick' else list(range(1, 21))
     els = [1, 2, 6, 8, 12] if tier == 'quick' else list(range(1, 16))
     combos = [(l, e) for l in lims for e in els]
     report.bounds = {'integer_part': f'solver variable, 0 <= Q < 10^{K}', 'remainder': 'solver variable, 0 <= R < d (every fraction with that denominator, reduced or not)', 'denominators': f'{len(ds)} concrete values: {ds[:45]}{"..." if len(ds) > 45 else ""}',
-                     'limit_x_exponent_limit': f'{lims} x {els}; per denominator ' + ('a seeded sample of 5 combinations plus (6,8); the CLI setting (12,12) for d <= 16 and d in {25,100,1000}' if tier == 'quick' else 'a seeded sample of 30 combinations (limit <= 12 for d > 1000) plus (6,8) and (12,12)'), 'sign': 'both', 'magnitude': f'10^-(digits of d) .. 10^{K}'}
+                     'limit_x_exponent_limit': f'{lims} x {els}; per denominator ' + ('a seeded sample of 5 combinations plus (6,8); the CLI setting (12,12) for d <= 16 and d in {25,100,1000}' if tier == 'quick' else 'a seeded sample of 10 combinations (limit <= 12 for d <= 64, <= 6 above) plus (6,8), and (12,12) for d <= 64 and d in {100,125,1000}'), 'sign': 'both', 'magnitude': f'10^-(digits of d) .. 10^{K}'}
     report.outside = ['denominators outside the grid (the algorithm is uniform in d, but that is an argument, not a verdict)', f'integer parts of more than {K} digits', 'show_continuation = false']
     report.assumptions = ['BigInt exact (SMT Int); x / d and x - d*(x/d) for a concrete d are introduced as quotient/remainder witnesses x = q*d + r, 0 <= r < d', 'BigInt::to_string / Display = decimal digits', 'fmt::Formatter collects pieces in order', 'iterator adapters take/peekable/count/clone/any, from_fn']
     report.models_used = ['fmt', 'num', 'coll', 'core', 'strings']
@@ -50,7 +50,7 @@ def jobs(tier, seed, report):
         if tier == 'quick':
             pick = cs[:5] + [(6, 8)] + ([(12, 12)] if d <= 16 or d in (25, 100, 1000) else [])
         else:
-            pick = [c for c in cs if d <= 1000 or c[0] <= 12][:30] + [(6, 8), (12, 12)]
+            pick = [c for c in cs if (d <= 64 and c[0] <= 12) or c[0] <= 6][:10] + [(6, 8)] + ([(12, 12)] if d <= 64 or d in (100, 125, 1000) else [])
         for (l, e) in dict.fromkeys(pick):
             js.append({'name': f'd{d}-l{l}-e{e}', 'd': d, 'limit': l, 'explimit': e, 'K': K})
     return js
@@ -196,6 +196,33 @@ def confirm(c, outs):
         if mark != (abs(x) != P): return True, f'{prof}: {t!r} for {x}: ' + ('continuation mark although nothing non-zero was cut off' if mark else 'digits cut off without the continuation mark')
         if sign != (x < 0): return True, f'{prof}: {t!r} has the wrong sign for {x}'
     return False, 'real build prints a faithful decimal'
+
+def validate(tier, seed, report):
+    """concrete rationals through the MIR interpreter (Display::fmt) and through the native Rational::display"""
+    import replay_client
+    rnd = random.Random(4000 + seed)
+    I = harness.interp_for('dev', {'digits_bound': 40, 'range_bound': 64})
+    FMT = rt.find_fn(I, 'fmt', contains='display.rs:136')
+    cases = []
+    for _ in range(120 if tier == 'quick' else 800):
+        d = rnd.choice([1, 2, 3, 4, 7, 8, 9, 16, 25, 40, 97, 125, 1000, 1415])
+        n = rnd.choice([1, -1]) * rnd.randint(0, 10 ** rnd.randint(0, 14))
+        cases.append((n, d, rnd.randint(1, 12), rnd.randint(1, 12)))
+    outs = replay_client.run_profile([{'op': 'display', 'n': str(n), 'd': str(d), 'limit': l, 'exponent_limit': e, 'cont': True} for n, d, l, e in cases], 'dev')
+    okc = 0
+    for (n, d, l, e), o in zip(cases, outs):
+        I.reset([])
+        q = Fraction(n, d)
+        rat = VRat(q, nd=(q.numerator, q.denominator))
+        spec = VStruct('display::DisplaySpec', [VInt(l, 'usize'), VInt(e, 'usize'), VBool(True)])
+        f = mfmt.new_formatter()
+        try: I.run_body(FMT, [VRef(Cell(VStruct('display::Display', [VRef(Cell(rat), []), VRef(Cell(spec), [])])), []), VRef(Cell(f), [])])
+        except PathEnd as ex:
+            if ex.kind == 'panic' and 'panic' in o: okc += 1; continue
+            raise RuntimeError(f'translator validation: {n}/{d} limit {l}/{e}: interpreter {ex.kind} {ex.info}, native {o}')
+        if show(f.out) != o.get('ok'): raise RuntimeError(f'translator validation: {n}/{d} limit {l}/{e}: interpreter prints {show(f.out)!r}, native {o}')
+        okc += 1
+    return okc
 
 def known_match(k, c): return True
 
